@@ -2,11 +2,5 @@
 
 package safehtmlutil
 
-// VerifRegexps returns the source text of the package-level regular
-// expressions, for verification tooling.
-func VerifRegexps() map[string]string {
-	return map[string]string{
-		"safeTrustedResourceURLPrefixPattern": safeTrustedResourceURLPrefixPattern.String(),
-		"urlDoubleDotSegmentPattern":          urlDoubleDotSegmentPattern.String(),
-	}
-}
+// This file is compiled only with the "verif" build tag. The package-level regular expressions
+// are read by the verification tooling from the source text; nothing is exported here.
